@@ -215,6 +215,8 @@ def make_source(spec, b, scratch):
     extra = opts.get('extra') or []
     if src == 'dict':
         d = {k: arrays[k] for k in keys}
+        if opts.get('drop_last') and len(d) > 1:
+            d.pop(sorted(d)[-1])
         for e in extra:
             d.setdefault('XTRA_' + str(e), np.arange(3, dtype=np.float32))
         for k, v in d.items():
